@@ -153,7 +153,39 @@ class Effects:
         return ('ext', "?", None)
 
     # ---- roots -------------------------------------------------------------------------------
-    def root_of(self, node, fi, fresh):
+    def local_alias(self, fi, name):
+        """`x = self.a.b` (the only binding of x, no call, no copy): x is another name for that object."""
+        cache = fi.__dict__.setdefault("_alias_cache", {}) if hasattr(fi, "__dict__") else {}
+        if name in cache:
+            return cache[name]
+        binds = []
+        for n in ast.walk(fi.node):
+            if isinstance(n, (ast.Assign, ast.AugAssign, ast.AnnAssign, ast.For, ast.With, ast.NamedExpr, ast.comprehension)):
+                tg = []
+                if isinstance(n, ast.Assign):
+                    tg = n.targets
+                elif isinstance(n, (ast.AugAssign, ast.AnnAssign, ast.NamedExpr)):
+                    tg = [n.target]
+                elif isinstance(n, (ast.For, ast.comprehension)):
+                    tg = [n.target]
+                elif isinstance(n, ast.With):
+                    tg = [i.optional_vars for i in n.items if i.optional_vars is not None]
+                for t in tg:
+                    if any(isinstance(x, ast.Name) and x.id == name for x in ast.walk(t)):
+                        binds.append(n)
+        out = None
+        if len(binds) == 1 and isinstance(binds[0], ast.Assign) and len(binds[0].targets) == 1 and \
+                isinstance(binds[0].targets[0], ast.Name):
+            v = binds[0].value
+            e = v
+            while isinstance(e, ast.Attribute):
+                e = e.value
+            if isinstance(v, ast.Attribute) and isinstance(e, ast.Name) and e.id != name:
+                out = v
+        cache[name] = out
+        return out
+
+    def root_of(self, node, fi, fresh, depth=0):
         """('self'|'param'|'global'|'fresh', name, path) of an lvalue/receiver expression."""
         path = []
         e = node
@@ -175,6 +207,11 @@ class Effects:
             if e.id in fi.params:
                 return ('param', e.id, tuple(path))
             if e.id in self.local_names(fi):
+                tgt = self.local_alias(fi, e.id)
+                if tgt is not None and depth < 4:
+                    r = self.root_of(tgt, fi, fresh, depth + 1)
+                    if r is not None and r[0] in ('self', 'param', 'global'):
+                        return (r[0], r[1], r[2] + tuple(path))
                 return ('fresh', e.id, tuple(path))     # local alias of something: treated via alias map by callers
             return ('global', e.id, tuple(path))
         if isinstance(e, ast.Call):
